@@ -224,11 +224,11 @@ func init() {
 	C("FileAttachment", "", func(e *env) { e.ctx.FileAttachment(e.files+"/small.txt", "att.txt") })
 	C("FileFromFS", "", func(e *env) { e.ctx.FileFromFS("/small.txt", &app.FS{Root: e.files, CacheDuration: time.Hour}) })
 	C("Finished", "", func(e *env) { e.ctx.Finished() })
-	C("Flush", "", func(e *env) { e.ctx.Flush() })                //nolint:errcheck
-	C("FormFile", "", func(e *env) { e.ctx.FormFile("upfile") })  //nolint:errcheck
-	C("FormValue", "", func(e *env) { e.ctx.FormValue("fa") })    //nolint:errcheck
-	C("PostArgs", "", func(e *env) { e.ctx.PostArgs() })          //nolint:errcheck
-	C("PostForm", "", func(e *env) { e.ctx.PostForm("fa") })      //nolint:errcheck
+	C("Flush", "", func(e *env) { e.ctx.Flush() })               //nolint:errcheck
+	C("FormFile", "", func(e *env) { e.ctx.FormFile("upfile") }) //nolint:errcheck
+	C("FormValue", "", func(e *env) { e.ctx.FormValue("fa") })   //nolint:errcheck
+	C("PostArgs", "", func(e *env) { e.ctx.PostArgs() })         //nolint:errcheck
+	C("PostForm", "", func(e *env) { e.ctx.PostForm("fa") })     //nolint:errcheck
 	C("GetPostFormArray", "", func(e *env) { e.ctx.GetPostFormArray("fa") })
 	C("MultipartForm", "", func(e *env) { e.ctx.MultipartForm() }) //nolint:errcheck
 	C("QueryArgs", "", func(e *env) { e.ctx.QueryArgs() })
@@ -315,11 +315,11 @@ func init() {
 	R("AppendBody", "", func(r *protocol.Request, e *env) { r.AppendBody([]byte("c09-append")) })
 	R("AppendBodyString", "", func(r *protocol.Request, e *env) { r.AppendBodyString("c09-appends") })
 	R("Body", "", func(r *protocol.Request, e *env) { r.Body() })
-	R("BodyE", "", func(r *protocol.Request, e *env) { r.BodyE() }) //nolint:errcheck
-	R("BodyBuffer", "", func(r *protocol.Request, e *env) { r.BodyBuffer().WriteString("c09-bb") }) //nolint:errcheck
-	R("BodyWriteTo", "", func(r *protocol.Request, e *env) { r.BodyWriteTo(io.Discard) })           //nolint:errcheck
+	R("BodyE", "", func(r *protocol.Request, e *env) { r.BodyE() })                                   //nolint:errcheck
+	R("BodyBuffer", "", func(r *protocol.Request, e *env) { r.BodyBuffer().WriteString("c09-bb") })   //nolint:errcheck
+	R("BodyWriteTo", "", func(r *protocol.Request, e *env) { r.BodyWriteTo(io.Discard) })             //nolint:errcheck
 	R("BodyWriter", "", func(r *protocol.Request, e *env) { r.BodyWriter().Write([]byte("c09-bw")) }) //nolint:errcheck
-	R("CloseBodyStream", "", func(r *protocol.Request, e *env) { r.CloseBodyStream() })             //nolint:errcheck
+	R("CloseBodyStream", "", func(r *protocol.Request, e *env) { r.CloseBodyStream() })               //nolint:errcheck
 	R("ConstructBodyStream", "", func(r *protocol.Request, e *env) {
 		b := &bytebufferpool.ByteBuffer{}
 		b.WriteString("c09-cbs") //nolint:errcheck
@@ -427,11 +427,11 @@ func init() {
 	P("AppendBody", "", func(r *protocol.Response, e *env) { r.AppendBody([]byte("c09-rappend")) })
 	P("AppendBodyString", "", func(r *protocol.Response, e *env) { r.AppendBodyString("c09-rappends") })
 	P("Body", "", func(r *protocol.Response, e *env) { r.Body() })
-	P("BodyE", "", func(r *protocol.Response, e *env) { r.BodyE() }) //nolint:errcheck
-	P("BodyBuffer", "", func(r *protocol.Response, e *env) { r.BodyBuffer().WriteString("c09-rbb") }) //nolint:errcheck
-	P("BodyWriteTo", "", func(r *protocol.Response, e *env) { r.BodyWriteTo(io.Discard) })           //nolint:errcheck
+	P("BodyE", "", func(r *protocol.Response, e *env) { r.BodyE() })                                    //nolint:errcheck
+	P("BodyBuffer", "", func(r *protocol.Response, e *env) { r.BodyBuffer().WriteString("c09-rbb") })   //nolint:errcheck
+	P("BodyWriteTo", "", func(r *protocol.Response, e *env) { r.BodyWriteTo(io.Discard) })              //nolint:errcheck
 	P("BodyWriter", "", func(r *protocol.Response, e *env) { r.BodyWriter().Write([]byte("c09-rbw")) }) //nolint:errcheck
-	P("CloseBodyStream", "", func(r *protocol.Response, e *env) { r.CloseBodyStream() })             //nolint:errcheck
+	P("CloseBodyStream", "", func(r *protocol.Response, e *env) { r.CloseBodyStream() })                //nolint:errcheck
 	P("ConstructBodyStream", "", func(r *protocol.Response, e *env) {
 		b := &bytebufferpool.ByteBuffer{}
 		b.WriteString("c09-rcbs") //nolint:errcheck
@@ -567,15 +567,15 @@ func init() {
 		T := func(method string, f func(t *protocol.Trailer)) {
 			add(acc.class, method, "", func(e *env) { f(acc.get(e)) })
 		}
-		T("Add", func(t *protocol.Trailer) { t.Add("X-C09-Ta", "1") })   //nolint:errcheck
-		T("Set", func(t *protocol.Trailer) { t.Set("X-C09-Ts", "2") })   //nolint:errcheck
+		T("Add", func(t *protocol.Trailer) { t.Add("X-C09-Ta", "1") }) //nolint:errcheck
+		T("Set", func(t *protocol.Trailer) { t.Set("X-C09-Ts", "2") }) //nolint:errcheck
 		T("Del", func(t *protocol.Trailer) { t.Del("X-T") })
 		T("DisableNormalizing", func(t *protocol.Trailer) { t.DisableNormalizing() })
 		T("Reset", func(t *protocol.Trailer) { t.Reset() })
 		T("ResetSkipNormalize", func(t *protocol.Trailer) { t.ResetSkipNormalize() })
 		T("SetTrailers", func(t *protocol.Trailer) { t.SetTrailers([]byte("X-C09-T1, X-C09-T2")) }) //nolint:errcheck
 		T("UpdateArgBytes", func(t *protocol.Trailer) {
-			t.Set("X-C09-Tu", "")                                 //nolint:errcheck
+			t.Set("X-C09-Tu", "")                               //nolint:errcheck
 			t.UpdateArgBytes([]byte("X-C09-Tu"), []byte("upd")) //nolint:errcheck
 		})
 		T("CopyTo:dst", func(t *protocol.Trailer) {
